@@ -30,6 +30,15 @@ var repoDir = "/repo"
 
 var replayTemplates = []*replayTemplate{
 	{
+		name: "tcp_listener_listen_race.go.tmpl",
+		match: func(o *Obligation) bool {
+			return (o.Kind == "guard.read" || o.Kind == "guard.write") && strings.HasPrefix(o.Func, "(*transport/tcp.listener).") && (strings.Contains(o.Name, ":listener.l") && !strings.Contains(o.Name, ":listener.lc") || strings.Contains(o.Name, ":listener.bound"))
+		},
+		run: func(g *Gen, o *Obligation, model map[string]string) (bool, string) {
+			return runReplayArgs("transport/tcp", "tcp_listener_listen_race.go.tmpl", map[string]string{}, "TestZZReplayListenerListenRace", "-race")
+		},
+	},
+	{
 		name: "req_recv_after_superseding_send.go.tmpl",
 		match: func(o *Obligation) bool {
 			return o.Kind == "post" && o.Func == "(*protocol/req.context).cancel" && strings.Contains(o.Note, "receiveWait")
